@@ -28,6 +28,9 @@ def fill_in_map(circuit):
 
 
 class MapFiller(Visitor):
+    # Names of the parameters of the macro being visited
+    macro_parameters = frozenset()
+
     ##
     # Visitor Methods
     #
@@ -92,6 +95,11 @@ class MapFiller(Visitor):
     def visit_NamedQubit(self, qubit):
         """Map this to a fundamental register and index and return it."""
         reg, index = qubit.resolve_qubit()
+        if reg.name in self.macro_parameters:
+            # Written out, reg[index] would refer to the parameter instead
+            raise JaqalError(
+                f"Cannot fill in map aliases: macro parameter {reg.name} hides register {reg.name}"
+            )
         return reg[index]
 
     def visit_Register(self, reg):
@@ -116,7 +124,11 @@ class MapFiller(Visitor):
         qubits which have type NamedQubit, so they are easily differentiated
         (unlike at the Jaqal level where they are both text identifiers).
         """
-        gate_block = self.visit(macro.body)
+        self.macro_parameters = {param.name for param in macro.parameters}
+        try:
+            gate_block = self.visit(macro.body)
+        finally:
+            self.macro_parameters = frozenset()
         sexpr = [
             "macro",
             macro.name,
